@@ -5,7 +5,7 @@
 From Coq Require Import List Arith Bool ZArith Permutation.
 Import ListNotations.
 Require Import Verif.Model.C06_Map Verif.Model.C06 Verif.Model.C06_Out Verif.Gen.C06_SortKey.
-Require Import Verif.Proofs.C06_Base Verif.Proofs.C06_Level Verif.Proofs.C06_Global Verif.Proofs.C06_Out.
+Require Import Verif.Proofs.C06_Base Verif.Proofs.C06_Level Verif.Proofs.C06_Global Verif.Proofs.C06_Out Verif.Proofs.C06_Indep.
 
 (* ---- finite obligations on what the translator extracted from the source ---- *)
 (* DecrementPending is an atomic add compared with zero (the model's EDec is one atomic step) *)
@@ -112,7 +112,68 @@ Theorem final_is_denotation_level :
 Proof. exact C06_Level.final_den. Qed.
 Print Assumptions final_is_denotation_level.
 
+(* the two-level system: every maximal execution ends with the same package results and failed flags, the
+   denotation of the package graph in which a package's result is computed from the denotation of its analyzer graph *)
+Theorem final_is_denotation :
+  forall Rp Ra strict GG cap, wf_dag (gtopd GG) -> 1 <= cap ->
+  forall exec_an need fin fout, results_local GG exec_an need fin fout ->
+  forall tr s, gcrun Rp Ra strict GG cap exec_an need fin fout tr s -> gfinal s = true ->
+    forall p, In p (nodes (gtopd GG)) ->
+      get (res (gtop s)) p = den (gtopd GG) (exec_top GG exec_an need fin fout) p /\
+      get (failed (gtop s)) p = isNone (den (gtopd GG) (exec_top GG exec_an need fin fout) p).
+Proof.
+  exact (fun Rp Ra strict GG cap W C exec_an need fin fout L =>
+    C06_Global.final_den_global Rp Ra strict GG cap W C exec_an need fin fout
+      (proj1 L) (proj1 (proj2 L)) (proj1 (proj2 (proj2 L))) (proj1 (proj2 (proj2 (proj2 L)))) (proj2 (proj2 (proj2 (proj2 L))))).
+Qed.
+Print Assumptions final_is_denotation.
+
+Theorem confluence :
+  forall Rp Ra strict GG cap, wf_dag (gtopd GG) -> 1 <= cap ->
+  forall exec_an need fin fout, results_local GG exec_an need fin fout ->
+  forall tr1 s1 tr2 s2,
+    gcrun Rp Ra strict GG cap exec_an need fin fout tr1 s1 -> gfinal s1 = true ->
+    gcrun Rp Ra strict GG cap exec_an need fin fout tr2 s2 -> gfinal s2 = true ->
+    forall p, In p (nodes (gtopd GG)) ->
+      get (res (gtop s1)) p = get (res (gtop s2)) p /\ get (failed (gtop s1)) p = get (failed (gtop s2)) p.
+Proof.
+  exact (fun Rp Ra strict GG cap W C exec_an need fin fout L =>
+    C06_Global.confluence_global Rp Ra strict GG cap W C exec_an need fin fout
+      (proj1 L) (proj1 (proj2 L)) (proj1 (proj2 (proj2 L))) (proj1 (proj2 (proj2 (proj2 L)))) (proj2 (proj2 (proj2 (proj2 L))))).
+Qed.
+Print Assumptions confluence.
+
+(* no_deadlock for the system with results: a non-final state has an enabled transition that is consistent with
+   the result functions (the package level waits for its analyzers, which can always step) *)
+Theorem no_deadlock_with_results :
+  forall Rp Ra strict GG cap, wf_dag (gtopd GG) -> 1 <= cap ->
+  forall exec_an need fin fout, results_local GG exec_an need fin fout ->
+  (forall p, wf_dagb (ginnerd GG p) = true) ->
+  forall tr s, gcrun Rp Ra strict GG cap exec_an need fin fout tr s -> gfinal s = false ->
+    exists l s', gstep strict GG cap s l = Some s' /\ gconsistent exec_an need fin fout s l.
+Proof.
+  exact (fun Rp Ra strict GG cap W C exec_an need fin fout L =>
+    C06_Global.no_deadlock_consistent Rp Ra strict GG cap W C exec_an need fin fout
+      (proj1 L) (proj1 (proj2 L)) (proj1 (proj2 (proj2 L))) (proj1 (proj2 (proj2 (proj2 L)))) (proj2 (proj2 (proj2 (proj2 L))))).
+Qed.
+Print Assumptions no_deadlock_with_results.
+
 (* ---- failed_iff: failed exactly when the action or a transitive dependency raised an error ---- *)
+Theorem failed_iff :
+  forall Rp Ra strict GG cap, wf_dag (gtopd GG) -> 1 <= cap ->
+  forall exec_an need fin fout, results_local GG exec_an need fin fout ->
+  forall tr s, gcrun Rp Ra strict GG cap exec_an need fin fout tr s -> gfinal s = true ->
+    forall p, In p (nodes (gtopd GG)) ->
+      (get (failed (gtop s)) p = true <->
+       exists d, dep_star (gtopd GG) d p /\ In d (nodes (gtopd GG)) /\
+                 raised Rp (gtopd GG) (exec_top GG exec_an need fin fout) (get (res (gtop s))) d).
+Proof.
+  exact (fun Rp Ra strict GG cap W C exec_an need fin fout L =>
+    C06_Global.failed_iff_global Rp Ra strict GG cap W C exec_an need fin fout
+      (proj1 L) (proj1 (proj2 L)) (proj1 (proj2 (proj2 L))) (proj1 (proj2 (proj2 (proj2 L)))) (proj2 (proj2 (proj2 (proj2 L))))).
+Qed.
+Print Assumptions failed_iff.
+
 Theorem failed_iff_level :
   forall R top strict G, wf_dag G ->
   forall exec : nat -> (nat -> option R) -> option R,
@@ -137,6 +198,33 @@ Theorem final_reads_after_writes_level :
     forall a, In a (nodes G) -> In a (km h) /\ get (dn s) a = true.
 Proof. exact C06_Level.final_reads_after_writes_level. Qed.
 Print Assumptions final_reads_after_writes_level.
+
+(* the same for every level of every execution of the two-level system *)
+Theorem results_read_after_write :
+  forall Rp Ra strict GG cap, wf_dag (gtopd GG) -> 1 <= cap ->
+  forall tr (s : gstate Rp Ra), grun_rel Rp Ra strict GG cap tr s ->
+  (exists g h, hrun Rp true strict (gtopd GG) (proj_top Rp Ra tr) (gtop s) g h /\
+     (forall a s', gstep strict GG cap s (GTop (EStart a)) = Some s' ->
+        forall d, dep_plus (gtopd GG) d a -> In d (kt h a) /\ get (dn (gtop s)) d = true) /\
+     (gfinal s = true -> forall a, In a (nodes (gtopd GG)) -> In a (km h) /\ get (dn (gtop s)) a = true))
+  /\ (forall p si, get (ginner s) p = Some si ->
+        exists g h, hrun Ra false strict (ginnerd GG p) (proj_in Rp Ra p tr) si g h /\
+          (forall a s', gstep strict GG cap s (GIn p (EStart a)) = Some s' ->
+             forall d, dep_plus (ginnerd GG p) d a -> In d (kt h a) /\ get (dn si) d = true) /\
+          (final si = true -> forall a, In a (nodes (ginnerd GG p)) -> In a (km h) /\ get (dn si) a = true)).
+Proof. exact C06_Global.results_read_after_write_global. Qed.
+Print Assumptions results_read_after_write.
+
+(* ---- pkg_independent: the result of an action depends only on its own transitive dependency cone, so naming
+        additional packages (a larger graph that agrees on the cone) does not change it ---- *)
+Theorem pkg_independent :
+  forall R (G G' : dag), wf_dag G -> wf_dag G' ->
+  forall exec : nat -> (nat -> option R) -> option R,
+    (forall a m m', (forall d, In d (deps G a) -> m d = m' d) -> exec a m = exec a m') ->
+    (forall a m m', (forall d, In d (deps G' a) -> m d = m' d) -> exec a m = exec a m') ->
+  forall a, agree_on_cone G G' a -> den G exec a = den G' exec a.
+Proof. exact C06_Indep.den_cone_independent. Qed.
+Print Assumptions pkg_independent.
 
 (* ---- output_deterministic: the printed order is a function of the multiset of diagnostics when the regenerated
         sort key is total on it (obligation evaluated on every observed output), for ANY sorting algorithm ---- *)
